@@ -238,8 +238,8 @@ var r131 = []cellOb{
 	{"S|C", "caseAllMatchedNotSubscribed", []string{"subscribe"}, "subscribe-or-create of an existing key subscribes"},
 	{"S|C", "caseMatchKeyNotType", []string{"error"}, "subscribe-or-create with another datatype type must be refused"},
 	{"C", "caseAllMatchedSubscribed", []string{"proceed"}, "the retry of a create that was already committed (response lost) must go on as a normal push-pull"},
-	{"S", "caseAllMatchedSubscribed", []string{"proceed"}, "the retry of a subscribe that was already committed must go on as a normal push-pull"},
-	{"S|C", "caseAllMatchedSubscribed", []string{"proceed"}, "the retry of a subscribe-or-create that was already committed must go on as a normal push-pull"},
+	{"S", "caseAllMatchedSubscribed", []string{"proceed", "subscribe"}, "the retry of a subscribe that was already committed must not be refused (whether it has to subscribe again is R13.6)"},
+	{"S|C", "caseAllMatchedSubscribed", []string{"proceed", "subscribe"}, "the retry of a subscribe-or-create that was already committed must not be refused (whether it has to subscribe again is R13.6)"},
 	{"S|C", "caseUsedDUID", []string{"create", "error"}, "the key does not exist here and the DUID belongs to another datatype: create under a new DUID or refuse, never attach to the foreign datatype"},
 }
 
